@@ -31,7 +31,7 @@ SimpleAtoms(amt) ==
   \cup { [a |-> "fail"], [a |-> "nothing"], [a |-> "collect"],
          [a |-> "deposit", x |-> 3], [a |-> "withdraw", x |-> 1] }
 \* one atom, or a side effect (collect / withdraw / deposit / nothing) followed by a repayment
-SideAtoms == { [a |-> "nothing"], [a |-> "collect"], [a |-> "deposit", x |-> 3], [a |-> "withdraw", x |-> 1] }
+SideAtoms == { [a |-> "nothing"], [a |-> "collect"], [a |-> "deposit", x |-> 3], [a |-> "withdraw", x |-> 1], [a |-> "fcb", x |-> 1] }
 Scripts1(amt) == { <<a>> : a \in SimpleAtoms(amt) }
                  \cup { <<a, [a |-> "repay", x |-> x]>> : a \in SideAtoms, x \in RepayAmounts(amt) }
 NestedScripts(amt) ==
